@@ -266,3 +266,17 @@ def gen_knobs(rng, small=True):
         "chunk": rng.wpick([(1, 1), (1, 2), (1, 15), (1, 16), (1, 17), (2, 4096), (4, 128000000)]),
         "bufsize": rng.pick([16, 512, 4096, 8192, 65536]),
     }
+
+
+def dep_flags(chains, read_chunk=None, read_block=None):
+    """Fingerprint class flags naming third-party codec paths with known streaming defects (see known_findings.json)."""
+    flags = {}
+    ppmd = any(c is not None and any(f["id"] == "PPMD" for f in c) for c in chains)
+    bcjx = any(c is not None and any(f["id"] in BCJS for f in c) and not any(f["id"] == "LZMA2" for f in c) for c in chains)
+    if ppmd:
+        flags["uses_pyppmd"] = True
+    if bcjx:
+        flags["uses_pybcj"] = True
+        if (read_chunk is not None and read_chunk < 4096) or (read_block is not None and read_block < 4096):
+            flags["small_pieces"] = True
+    return flags
